@@ -87,7 +87,17 @@ struct Delivery {
 const MUTATION_COUNTS: [usize; 8] = [0, 1, 1, 1, 2, 2, 3, 4];
 
 fn gen_delivery(t: &mut Tape, c: &Corpus) -> Delivery {
-    let entry = t.index(ENTRIES.len());
+    // the 66 endpoint conversions are many entry points over a few parsers: together they get a
+    // third of the deliveries, the other entry points share the rest
+    let entry = {
+        let http: Vec<usize> = (0..ENTRIES.len()).filter(|&i| ENTRIES[i].name.starts_with("http.")).collect();
+        let rest: Vec<usize> = (0..ENTRIES.len()).filter(|&i| !ENTRIES[i].name.starts_with("http.")).collect();
+        if !http.is_empty() && (rest.is_empty() || t.below(3) == 0) {
+            http[t.index(http.len())]
+        } else {
+            rest[t.index(rest.len())]
+        }
+    };
     let traits = ENTRIES[entry].traits;
     let seeds = &c.seeds[entry];
     let seed = t.index(seeds.len());
